@@ -85,6 +85,7 @@ def gen_cases(ck: Check):
     yield "malformed", 0, [[0]], 1, []                       # one city
     yield "malformed", 0, [[0, -3, 5], [2, 0, 1], [1, 1, 0]], 1, [[0, 1, 2], [2, 1, 0]]  # negative entry
     yield "malformed", 0, [[0, -3, 1], [1, 0, 1], [1, 1, 0]], 1, []  # negative nearest sum
+    yield "malformed", 0, [[0, 5, -3, 5], [1, 0, 5, 1], [1, 1, 0, 1], [1, 1, 1, 0]], 1, [[0, 2, 1, 3]]
     # (3) structured random
     n_rand = 250 if quick else 4000
     for _ in range(n_rand):
@@ -140,6 +141,8 @@ def streams(ck: Check) -> None:
             sym = all(M[i][j] == M[j][i] for i in range(len(M)) for j in range(len(M)))
             ck.spec(bool(inst.is_symmetric) == sym, "symflag", "symmetry flag differs from matrix symmetry", {"M": M})
             ck.spec(np.asarray(inst).tolist() == M, "stored", "stored matrix differs from the given one", {"M": M})
+            ck.spec(all(v >= 0 for r in M for v in r), "negdist_accepted",
+                    "constructor accepted a negative distance (bounds/no-overflow clauses assume non-negative matrices)", {"M": M})
         target = inst if inst is not None else np.array(M, dtype=np.int64)
         for x in tours:
             if len(M) != len(M[0]) if M else True:
@@ -175,7 +178,7 @@ def streams(ck: Check) -> None:
             # C: the documented cyclic edge sum (Lean spec `cyclicSum`, evaluated by the driver)
             ck.spec(d.get("spec") == str(iout), "cyclic", f"tour_length={iout} but cyclic edge sum={d.get('spec')}",
                     {"M": M if n <= 12 else f"<{n} cities>", "x": x})
-            if inst is not None and lb == 0 and stream != "malformed":
+            if inst is not None and lb == 0:
                 ck.spec(inst.tour_length_lower_bound <= iout <= inst.tour_length_upper_bound, "bounds",
                         f"tour length {iout} outside [{inst.tour_length_lower_bound},{inst.tour_length_upper_bound}]",
                         {"M": M if n <= 12 else f"<{n} cities>", "x": x})
